@@ -208,3 +208,12 @@ Section Chain.
 End Chain.
 (* number of `key = random.split(key, 3)[0]` advances the returned key is away from the key passed in *)
 Definition key_advances (num_samples : nat) : nat := num_samples.
+
+(* ------------------------------------------------------------------------------------------ *)
+(* _Sampler.__init__: the momentum is refreshed with  p = mass_matrix_sqrt * normal  where
+     self.mass_matrix_sqrt = self.inverse_mass_matrix ** (-0.5)
+   while leapfrog, kinetic energy and acceptance use inverse_mass_matrix (diagonal M^-1, entry by entry).
+   [mass_consistent s im]: the standard deviation s of a momentum entry and its inverse mass im fit together. *)
+Definition mass_consistent (s im : Q) : Prop := (s * s * im == 1)%Q.
+(* expected kinetic energy  E[ im * p^2 / 2 ]  of an entry with p = s * z, E[z^2] = 1 *)
+Definition expected_kinetic (s im : Q) : Q := ((1 # 2) * (im * (s * s)))%Q.
